@@ -215,6 +215,9 @@ def run(ck):
     # (R08.1: the driver keeps private copies)
     from . import c08
     c08.user_addr_writers(radio, agg, radio.user_pipe0_field())
+    # "exactly once, in order, attributed to the pipe it was sent to": nothing but the caller's payload is in the TX FIFO when send() starts
+    # (left-over ACK payloads are flushed on TX entry) and pipe 0 returns to the reading address after a transmission (R08.x, shared with C08)
+    c08.run_for(ck, radio, agg)
     # FakeBLE.advertise takes caller buffers too
     ble = Radio(ck, "fake_ble", "FakeBLE")
     fadv = ck.prog.method(ble.cls, "advertise")
